@@ -38,7 +38,7 @@ def states_of(sc, obs):
             amt, st = sx.q(o[0]), [sx.bnd(b) for b in o[1]]
         elif t in (3, 4, 5):
             amt, st = sx.q(o[1]), [sx.bnd(b) for b in o[2]]
-        elif t in (7, 8, 10, 13):
+        elif t in (7, 8, 10, 11, 13):
             amt, st = None, [sx.bnd(b) for b in o[0]]
         else:
             amt, st = None, cur
@@ -533,6 +533,12 @@ def c16_prop_part(ctx):
         mode = rng.choice(["consistent", "consistent", "free"])
         data, hidden = gen_prop.gen_data(rng, kb, mode)
         pre = [[9]] if rng.random() < 0.3 else []
+        if rng.random() < 0.4:
+            # worlds declared through add_knowledge(f, world=...) on formulae already in the model (axioms, closed / open world)
+            for r in rng.sample(range(len(kb)), min(len(kb), rng.choice([1, 2]))):
+                if kb[r][0] != 0 and gen_prop.owned(kb, r):
+                    continue
+                pre.append([11, r, rng.choice([[F(1), F(1)], [F(1), F(1)], [F(0), F(0)], [F(0), F(1)]])])
         ops = pre + [[5, -1, 30]]
         k1 = len(ops) - 1
         ops += gen_prop.gen_ops(rng, kb, roots, rng.choice([0, 2, 4])) + [[9], [7], [5, -1, 30]]
